@@ -2,9 +2,11 @@
 
 package scen
 
+import "unsafe"
+
 // arena (heap flavour): shared inputs live on the Go heap, so that the race
 // detector shadows them (-race build, DESIGN §4.6 "R build").
-type arena struct{}
+type arena struct{ br byteRanges }
 
 const ArenaReadOnly = false
 
@@ -36,6 +38,7 @@ func (a *arena) bytes(x []byte) []byte {
 	for i := len(x); i < len(out); i++ {
 		out[i] = sentinel8
 	}
+	a.br.add(uintptr(unsafe.Pointer(&out[0])), uintptr(len(x)))
 	return out[:len(x)]
 }
 func (a *arena) strs(x []string) []string {
